@@ -69,6 +69,10 @@ CHECKS = {
   text="Root re-binding only under is_root, target discovery through the optional-match query seeded with the right document, exhaustive right-root-kind dispatch with (merge point, target, right document), MergeException when nothing merged, re-basing of rule and key paths on the merge point, zero-exit-state guard of the yaml-merge write. Value equality of the complement of the target subtrees is declined.",
   note="Trusted base: C09 (only the missing tail is created by the target query).",
   technique="guard dominance + exhaustive-dispatch and dataflow-role rules over the AST; abstract exit-state interpretation for the write guard"),
+ "C06": dict(
+  text="Shape rule for all DiffEntry construction sites (ADD/DELETE/SAME/CHANGE argument shapes under the right equality facts; path names the reported element's own key or index), partial evaluation of the kind dispatcher over all 16 kind pairs and of the two mode dispatchers per enum member, absent-vs-null rule for pairing loops, both-sides rule for emptiness branches, exit-status non-interference and DifferConfig ladders. The Differ has no library-level test at all; completeness/exactly-once over documents is declined.",
+  note="Trusted base: itertools.zip_longest, == on ruamel data.",
+  technique="construction-site shape rules + partial evaluation (decision tables) + sentinel/one-sided-test rules over the AST"),
 }
 
 NOT_BUILT = "check not built yet (framework under construction; will be claimed at clause level per DESIGN.md)"
